@@ -53,6 +53,11 @@ type syncMapState struct {
 	m *MapObj
 }
 
+type poolKey struct {
+	obj *Object
+	off int
+}
+
 func (e *Engine) syncMapAt(p Ptr) *MapObj {
 	if e.p.syncMaps == nil {
 		e.p.syncMaps = map[*Object]map[int]*MapObj{}
@@ -162,12 +167,32 @@ func registerSyncIntrinsics() {
 		p := a[0].(Ptr)
 		off, _ := e.fieldOffset(recvElem(fn), "New")
 		nf, _ := p.Obj.Cells[p.Off+off].(*Closure)
+		// sync.Pool's contract: Get may hand back ANY item put earlier and not yet taken, or a
+		// fresh one: every possibility is explored (free choice), so reuse bugs are visible
+		key := poolKey{p.Obj, p.Off}
+		if items := e.p.pools[key]; len(items) > 0 {
+			e.p.sched.yield = true
+			if k := e.FreeChoice("pool", len(items)+1); k > 0 {
+				it := items[k-1]
+				rest := append([]Value{}, items[:k-1]...)
+				e.p.pools[key] = append(rest, items[k:]...)
+				return it, true
+			}
+		}
 		if nf == nil {
 			return Iface{}, true
 		}
 		return e.callNested(g, nf, nil), true
 	}
 	I["(*sync.Pool).Put"] = func(e *Engine, g *Goroutine, a []Value, fn *ssa.Function, c *ssa.Call) (Value, bool) {
+		p := a[0].(Ptr)
+		if e.p.pools == nil {
+			e.p.pools = map[poolKey][]Value{}
+		}
+		key := poolKey{p.Obj, p.Off}
+		if len(e.p.pools[key]) < 4 { // a pool may drop items at any time: keeping at most 4 is within its contract
+			e.p.pools[key] = append(e.p.pools[key], a[1])
+		}
 		return nil, true
 	}
 	// sync.Map
